@@ -7,6 +7,58 @@ import Bita.Spec.Resume
 namespace Bita.Proofs
 open Bita Bita.Spec
 
+theorem io_slice_append_slice (file : Bytes) (pos a m : Nat) :
+    slice file pos a ++ slice file (pos + a) m = slice file pos (a + m) := by
+  unfold slice
+  rw [List.take_add, List.drop_drop]
+
+theorem io_slice_length (file : Bytes) (pos a : Nat) :
+    (slice file pos a).length = min a (file.length - pos) := by
+  simp [slice]
+
+theorem io_slice_length_self (file : Bytes) (pos a : Nat) :
+    slice file pos (slice file pos a).length = slice file pos a := by
+  unfold slice
+  rw [List.take_eq_take_iff]
+  simp
+
+theorem ioFill_sound (file : Bytes) (pos need : Nat) (script : List ReadEv) :
+    ∀ acc : Bytes, acc = slice file pos acc.length → acc.length < need →
+      (∃ rest, ioFill file pos need acc script = .ok (slice file pos need) rest ∧
+          pos + need ≤ file.length) ∨
+        ioFill file pos need acc script = .fail Item.stall ∨
+        ioFill file pos need acc script = .fail Item.errEof ∨
+        ioFill file pos need acc script = .fail Item.errIo := by
+  induction script with
+  | nil => intro acc _ _; simp [ioFill]
+  | cons e s ih =>
+    intro acc hacc hlt
+    cases e with
+    | pending => simpa [ioFill] using ih acc hacc hlt
+    | err => simp [ioFill]
+    | bytes n =>
+      simp only [ioFill]
+      split
+      · simp
+      · have hacc' : acc ++ slice file (pos + acc.length) (min n (need - acc.length)) =
+            slice file pos (acc.length + min n (need - acc.length)) := by
+          have := io_slice_append_slice file pos acc.length (min n (need - acc.length))
+          rwa [← hacc] at this
+        have hlen := congrArg List.length hacc'
+        rw [io_slice_length] at hlen
+        split
+        · next h =>
+          left
+          refine ⟨s, ?_, ?_⟩
+          · rw [hacc']
+            congr 2
+            omega
+          · omega
+        · next h =>
+          apply ih
+          · rw [hacc', io_slice_length_self]
+          · omega
+
 theorem io_reader_sound (file : Bytes) (chunks : List ChunkOffset) (buf0 : Bytes)
     (script : List ReadEv) (hsize : ∀ c ∈ chunks, 1 ≤ c.size) :
     ∃ k tail, k ≤ chunks.length ∧
@@ -14,7 +66,89 @@ theorem io_reader_sound (file : Bytes) (chunks : List ChunkOffset) (buf0 : Bytes
       (∀ c ∈ chunks.take k, c.stop ≤ file.length) ∧
       ((tail = [] ∧ k = chunks.length) ∨ tail = [Item.stall] ∨ tail = [Item.errEof] ∨
         tail = [Item.errIo]) := by
-  sorry
+  induction chunks generalizing buf0 script with
+  | nil => exact ⟨0, [], by simp [ioReadChunks]⟩
+  | cons c cs ih =>
+    have hc : 1 ≤ c.size := hsize c (by simp)
+    have hcs : ∀ c ∈ cs, 1 ≤ c.size := fun d hd => hsize d (by simp [hd])
+    have hne : c.size ≠ 0 := by omega
+    rcases ioFill_sound file c.offset c.size script [] (by simp [slice]) (by simp; omega) with
+      ⟨rest, hfill, hle⟩ | hfill | hfill | hfill
+    · obtain ⟨k, tail, hk, heq, hall, htail⟩ := ih (slice file c.offset c.size) rest hcs
+      refine ⟨k + 1, tail, by simpa using hk, ?_, ?_, ?_⟩
+      · simp [ioReadChunks, hne, hfill, heq, exactItem]
+      · intro d hd
+        simp only [List.take_succ_cons, List.mem_cons] at hd
+        rcases hd with rfl | hd
+        · exact hle
+        · exact hall d hd
+      · simpa using htail
+    · exact ⟨0, [Item.stall], by simp, by simp [ioReadChunks, hne, hfill], by simp, by simp⟩
+    · exact ⟨0, [Item.errEof], by simp, by simp [ioReadChunks, hne, hfill], by simp, by simp⟩
+    · exact ⟨0, [Item.errIo], by simp, by simp [ioReadChunks, hne, hfill], by simp, by simp⟩
+
+theorem io_cnt_pending (s : List ReadEv) :
+    ((ReadEv.pending :: s).filter (· ≠ ReadEv.pending)).length =
+      (s.filter (· ≠ ReadEv.pending)).length := by
+  rw [List.filter_cons_of_neg (by simp)]
+
+theorem io_cnt_bytes (n : Nat) (s : List ReadEv) :
+    ((ReadEv.bytes n :: s).filter (· ≠ ReadEv.pending)).length =
+      (s.filter (· ≠ ReadEv.pending)).length + 1 := by
+  rw [List.filter_cons_of_pos (by simp), List.length_cons]
+
+theorem ioFill_complete (file : Bytes) (pos need : Nat) (hin : pos + need ≤ file.length)
+    (script : List ReadEv)
+    (hok : ∀ e ∈ script, e = ReadEv.pending ∨ ∃ n, 1 ≤ n ∧ e = ReadEv.bytes n) :
+    ∀ acc : Bytes, acc = slice file pos acc.length → acc.length < need →
+      need - acc.length ≤ (script.filter (· ≠ ReadEv.pending)).length →
+      ∃ rest, ioFill file pos need acc script = .ok (slice file pos need) rest ∧
+        (∀ e ∈ rest, e ∈ script) ∧
+        (script.filter (· ≠ ReadEv.pending)).length ≤
+          (rest.filter (· ≠ ReadEv.pending)).length + (need - acc.length) := by
+  induction script with
+  | nil => intro acc _ hlt h; simp at h; omega
+  | cons e s ih =>
+    have hoks : ∀ e ∈ s, e = ReadEv.pending ∨ ∃ n, 1 ≤ n ∧ e = ReadEv.bytes n :=
+      fun d hd => hok d (by simp [hd])
+    intro acc hacc hlt hcnt
+    rcases hok e (by simp) with rfl | ⟨n, hn, rfl⟩
+    · rw [io_cnt_pending] at hcnt ⊢
+      obtain ⟨rest, h1, h2, h3⟩ := ih hoks acc hacc hlt hcnt
+      exact ⟨rest, by simpa [ioFill] using h1, fun d hd => by simp [h2 d hd], h3⟩
+    · simp only [ioFill]
+      rw [io_cnt_bytes] at hcnt ⊢
+      have hacc' : acc ++ slice file (pos + acc.length) (min n (need - acc.length)) =
+          slice file pos (acc.length + min n (need - acc.length)) := by
+        have := io_slice_append_slice file pos acc.length (min n (need - acc.length))
+        rwa [← hacc] at this
+      have hlen := congrArg List.length hacc'
+      rw [io_slice_length, List.length_append] at hlen
+      have hgot : ¬ (slice file (pos + acc.length) (min n (need - acc.length))).isEmpty = true := by
+        rw [List.isEmpty_iff]
+        intro h0
+        rw [h0] at hlen
+        simp at hlen
+        omega
+      rw [if_neg hgot]
+      split
+      · next h =>
+        refine ⟨s, ?_, fun d hd => by simp [hd], ?_⟩
+        · rw [hacc']
+          congr 2
+          simp at h
+          omega
+        · omega
+      · next h =>
+        simp only [List.length_append, Nat.not_le] at h
+        obtain ⟨rest, h1, h2, h3⟩ := ih hoks
+          (acc ++ slice file (pos + acc.length) (min n (need - acc.length)))
+          (by rw [hacc', io_slice_length_self])
+          (by simp only [List.length_append]; omega)
+          (by simp only [List.length_append]; omega)
+        refine ⟨rest, h1, fun d hd => by simp [h2 d hd], ?_⟩
+        simp only [List.length_append] at h3
+        omega
 
 theorem io_reader_complete (file : Bytes) (chunks : List ChunkOffset) (buf0 : Bytes)
     (script : List ReadEv) (hsize : ∀ c ∈ chunks, 1 ≤ c.size)
@@ -22,6 +156,19 @@ theorem io_reader_complete (file : Bytes) (chunks : List ChunkOffset) (buf0 : By
     (hok : ∀ e ∈ script, e = ReadEv.pending ∨ ∃ n, 1 ≤ n ∧ e = ReadEv.bytes n)
     (hlen : (chunks.map (·.size)).sum ≤ (script.filter (· ≠ ReadEv.pending)).length) :
     ioReadChunks file chunks buf0 script = chunks.map (exactItem file) := by
-  sorry
+  induction chunks generalizing buf0 script with
+  | nil => simp [ioReadChunks]
+  | cons c cs ih =>
+    have hc : 1 ≤ c.size := hsize c (by simp)
+    have hcs : ∀ c ∈ cs, 1 ≤ c.size := fun d hd => hsize d (by simp [hd])
+    have hne : c.size ≠ 0 := by omega
+    have hinc : c.offset + c.size ≤ file.length := hin c (by simp)
+    simp only [List.map_cons, List.sum_cons] at hlen
+    obtain ⟨rest, h1, h2, h3⟩ := ioFill_complete file c.offset c.size hinc script hok []
+      (by simp [slice]) (by simp; omega) (by simp only [List.length_nil]; omega)
+    simp only [List.length_nil, Nat.sub_zero] at h3
+    have := ih (slice file c.offset c.size) rest hcs (fun d hd => hin d (by simp [hd]))
+      (fun e he => hok e (h2 e he)) (by omega)
+    simp [ioReadChunks, hne, h1, this, exactItem]
 
 end Bita.Proofs
